@@ -297,6 +297,7 @@ func (k Keeper) RollbackMeta(ctx sdk.Context, dataId string) {
 	}
 
 	if len(metadata.Commits) == 0 {
+		k.removeDataExpireBlock(ctx, dataId, metadata.CreatedAt+metadata.Duration)
 		k.RemoveMetadata(ctx, dataId)
 
 		key := fmt.Sprintf("%s-%s-%s", metadata.Owner, metadata.Alias, metadata.GroupId)
